@@ -32,7 +32,9 @@ def _sub(chk, modname):
 def run(chk):
     life_check.run_property(chk, 'C01', 'props/C01.v')
     _sub(chk, 'c11')
-    chk.coverage['rule'] += '; plus the C11 correspondence (notifications as received by listener pools)'
+    _sub(chk, 'c09')
+    chk.coverage['rule'] += ('; plus the C11 and C09 correspondences (notifications as received by listener pools: content, '
+                             'routing, order, exactly-once delivery)')
 
 
 def replay(chk, path):
